@@ -381,11 +381,27 @@ fn check_c02(pe: &PointEval, item: u64, acc: &mut Acc) {
         acc.count("skipped_single_external");
         return;
     }
-    acc.set("cond_V_decades", format!("1e{:02}", ex.cond_v.log10().max(0.0).floor() as i64));
-    if !(ex.cond_v <= 1e8) || !(ex.bound_u(K) <= 1e-3) {
-        acc.count("skipped_ill_conditioned(cond_V>1e8)");
+    acc.set("cancellation_ratio_decades", format!("1e{:02}", ex.cancel_ratio.log10().max(0.0).floor() as i64));
+    // Domain of the property: exact cancellation ratio of V = A - B at most 1e8. (V as a function
+    // of the Feynman parameters is perfectly conditioned; digits are lost only in the subtraction.)
+    if !(ex.cancel_ratio <= 1e8) {
+        acc.count("skipped_outside_domain(cancellation_ratio>1e8)");
         return;
     }
+    // The bounds are inequalities with O(1) room: each clause is evaluated whenever the rigorous
+    // rounding bound of the quantity it uses stays below 5%, and its slack is widened by that bound.
+    let bu = ex.bound_u(K);
+    let bvv = ex.bound_v(K);
+    let u_ok = bu <= 0.05;
+    let v_ok = u_ok && bvv <= 0.05;
+    if !u_ok {
+        acc.count("skipped_rounding_bound_of_u_above_5%");
+        return;
+    }
+    if !v_ok {
+        acc.count("v_and_ratio_clauses_skipped(rounding_bound_of_v_above_5%)");
+    }
+    acc.set("kappa_decades", format!("1e{:02}", ex.kappa.log10().max(0.0).floor() as i64));
     if pe.lg.x.iter().any(|v| !(*v >= f64::MIN_POSITIVE)) {
         acc.count("skipped_subnormal_parameters");
         return;
@@ -400,7 +416,7 @@ fn check_c02(pe: &PointEval, item: u64, acc: &mut Acc) {
     let ln_ut = su.sym.ln_u_trop(&lx);
     let ln_ft = su.sym.ln_f_trop_actual(&lx);
     let ln_vt = ln_ft - ln_ut;
-    let slack = 1e-3;
+    let slack = 1e-3 + 2.0 * bu + if v_ok { 2.0 * bvv } else { 0.0 };
     let d_half = su.g.d as f64 / 2.0;
     let mut fails: Vec<String> = vec![];
     let (lu, lv) = (out.u.ln(), out.v.ln());
@@ -409,7 +425,7 @@ fn check_c02(pe: &PointEval, item: u64, acc: &mut Acc) {
     }
     let ln_cmin = ln_q(&cmin);
     let ln_csum = ln_q(&csum);
-    if !(lv >= ln_vt + ln_cmin - nt.ln() - slack && lv <= ln_vt + ln_csum + slack) {
+    if v_ok && !(lv >= ln_vt + ln_cmin - nt.ln() - slack && lv <= ln_vt + ln_csum + slack) {
         fails.push(format!(
             "v = {:e} outside [(c_min/N_T) V_tr, C_sum V_tr] = [{:e}, {:e}] (V_tr {:e}, c_min {:e}, C_sum {:e})",
             out.v,
@@ -424,18 +440,18 @@ fn check_c02(pe: &PointEval, item: u64, acc: &mut Acc) {
     let lo = -d_half * nt.ln() - su.omega * ln_csum;
     let hi = su.omega * (nt.ln() - ln_cmin);
     let s2 = slack * (1.0 + d_half + su.omega);
-    if !(ratio_ln >= lo - s2 && ratio_ln <= hi + s2) {
+    if v_ok && !(ratio_ln >= lo - s2 && ratio_ln <= hi + s2) {
         fails.push(format!("ln(jacobian/normalisation) = {:e} outside [{:e}, {:e}]", ratio_ln, lo, hi));
     }
     // how far inside the interval (coverage: proximity to the bounds)
-    if hi - lo > 1e-6 {
+    if v_ok && hi - lo > 1e-6 {
         // position inside the a-priori interval: 0 = lower end, 1 = upper end
         acc.max("weight_interval_position_max", (ratio_ln - lo) / (hi - lo));
         acc.max("weight_interval_position_min_negated", -((ratio_ln - lo) / (hi - lo)));
     }
     let spread = lx.iter().cloned().fold(f64::NEG_INFINITY, f64::max) - lx.iter().cloned().fold(f64::INFINITY, f64::min);
     acc.set("parameter_spread_decades", format!("1e{:02}", (spread / std::f64::consts::LN_10).floor() as i64));
-    acc.count("bounds_checked");
+    acc.count(if v_ok { "all_bounds_checked" } else { "u_bounds_checked_only" });
     if !fails.is_empty() {
         acc.violate(
             item,
